@@ -47,10 +47,11 @@ const (
 	c31WrongKey  = "wrong_key"        // verifier id of miner i, signature made by miner k != i
 	c31Garbage   = "garbage_sig"      // verifier id of miner i, signature is not a signature
 	c31EmptySig  = "empty_sig"        // verifier id of miner i, empty signature
+	c31OtherCase = "valid_other_case" // miner i's valid signature spelled in another letter case (hex decoding ignores case): one more textual form of a ticket of miner i
 	c31Dup       = "duplicate_of_prev" // the previous list entry again
 )
 
-var c31InvalidKinds = []string{c31Sharder, c31Outsider, c31UnknownID, c31OtherHash, c31WrongKey, c31Garbage, c31EmptySig, c31Dup}
+var c31InvalidKinds = []string{c31Sharder, c31Outsider, c31UnknownID, c31OtherHash, c31WrongKey, c31Garbage, c31EmptySig, c31OtherCase, c31OtherCase, c31Dup}
 
 type c31Tk struct {
 	Kind string
@@ -94,6 +95,14 @@ func c31Materialize(e *e3Engine, tks []c31Tk, hash, otherHash string) []*block.V
 			vt = &block.VerificationTicket{VerifierID: e.miners[i].id, Signature: sig}
 		case c31EmptySig:
 			vt = &block.VerificationTicket{VerifierID: e.miners[i].id, Signature: ""}
+		case c31OtherCase:
+			vt = e.ticketBy(e.miners[i], hash)
+			if k.Who%2 == 0 {
+				vt.Signature = strings.ToUpper(vt.Signature)
+			} else {
+				h := len(vt.Signature) / 2
+				vt.Signature = strings.ToUpper(vt.Signature[:h]) + vt.Signature[h:]
+			}
 		case c31Dup:
 			if len(out) == 0 {
 				vt = e.ticketBy(e.miners[i], hash)
